@@ -634,6 +634,34 @@ func (tb *TB) Bin(op Op, a, b *Term) *Term {
 			return a
 		}
 	}
+	// (x*c) / c == x and (x*c) % c == 0 when the product cannot wrap
+	if (op == OpSDiv || op == OpSRem || op == OpUDiv || op == OpURem) && b.IsConst() && b.Val != 0 && a.Op == OpMul && a.Args[1].IsConst() && a.Args[1].Val == b.Val {
+		x := a.Args[0]
+		rx := tb.Range(x)
+		signed := op == OpSDiv || op == OpSRem
+		ok := false
+		if signed {
+			c := signExt(b.Val, w)
+			_, o1 := mulOv(rx.slo, c)
+			_, o2 := mulOv(rx.shi, c)
+			f := fullRange(w)
+			lo, _ := mulOv(rx.slo, c)
+			hi, _ := mulOv(rx.shi, c)
+			if lo > hi {
+				lo, hi = hi, lo
+			}
+			ok = !o1 && !o2 && lo >= f.slo && hi <= f.shi && c > 0
+		} else {
+			hi, o := umulOv(rx.uhi, b.Val)
+			ok = !o && hi <= mask(w)
+		}
+		if ok {
+			if op == OpSDiv || op == OpUDiv {
+				return x
+			}
+			return tb.Const(w, 0)
+		}
+	}
 	if op == OpSDiv || op == OpSRem {
 		if ra, rb := tb.Range(a), tb.Range(b); ra.slo >= 0 && rb.slo > 0 {
 			if op == OpSDiv {
